@@ -255,6 +255,8 @@ def search_native(oset_name, seed, tries=4000):
         evaluated += len(h.checked)
         if h.failed:
             return {"reproduced": True, "failed": [f[0] for f in h.failed], "inputs": _jsonable(h.inputs), "tries": ran, "evaluated": evaluated}
+        if not h.inputs:
+            break  # a script without inputs (a fixed schedule library, a lemma over all grid values): one run says it all
     return {"reproduced": False, "note": f"bounded native search: {ran} random inputs, no failing one", "tries": ran, "evaluated": evaluated}
 
 
